@@ -16,7 +16,7 @@ def parseIK : String → IK
 
 def parseTK : String → TK
   | "set" => .set | "sine" => .sine | "app" => .app | "del" => .del | "sum" => .sum | "max" => .max
-  | "min" => .min | "ssumset" => .ssumset | _ => .ssumsum
+  | "min" => .min | "ssumset" => .ssumset | "burst" => .burst | _ => .ssumsum
 
 def parsePolicy : String → Policy
   | "set" => .set | "sine" => .setIfNotExists | "add" => .add | "min" => .min | "max" => .max
